@@ -297,6 +297,18 @@ pub fn generate(ctx: &mut Ctx, rep: &mut Report, emit: &mut dyn FnMut(&mut Ctx, 
         let mode = match rng.below(9) { 0..=3 => "r".to_string(), 4..=7 => "x".to_string(), _ => format!("o:{}", hex(rng.pick(&["-X", "x", "--hex", "-p"]).as_bytes())) };
         emit(ctx, rep, format!("cli.encode {} {} {} {}", mode, if rng.chance(1, 2) { "file" } else { "stdin" }, hex(m.as_bytes()), hex(&payload)));
     }
+    // raw output far beyond any buffer in front of stdout (64 KiB and more), with the newline — which a line-buffered
+    // writer treats specially — at the start, in the middle, in the last KiB, or absent
+    for (n, nl) in [(70_000usize, Some(0usize)), (65_536, Some(1)), (66_000, Some(33_000)), (150_000, Some(149_500)), (70_000, None), (131_072, Some(100))] {
+        for _ in 0..ctx.n(1, 4) {
+            let mut d: Vec<u8> = rng.bytes(n).into_iter().map(|x| if x == b'\n' { b'A' } else { x }).collect();
+            if let Some(k) = nl { d[k] = b'\n'; }
+            emit(ctx, rep, format!("cli.encode r {} {} {}", if rng.chance(1, 2) { "file" } else { "stdin" }, hex(readme.as_bytes()), hex(&d)));
+            let mut b = gen_bundle(&mut rng, &Opts { wf: true, max_blocks: 2 });
+            b.set_payload(d);
+            emit(ctx, rep, format!("cli.decode p stdin {}", hex(&b.to_cbor())));
+        }
+    }
     // decode: encoded bundles of the C01 domain, raw on stdin or as hex argument; plus damaged ones
     for _ in 0..ctx.n(400, 20_000) {
         let mut b = gen_bundle(&mut rng, &Opts { wf: true, max_blocks: 4 });
